@@ -287,6 +287,11 @@ class CInference(Inference):
                 logger.debug("eta %s", eta)
                 logger.debug("vSums %s", vSums[index])
                 logger.debug("fSums %s", fSums[index])
+            if not fSums[index]:
+                # no world falsifies this conditional, so every ranking accepts it:
+                # it puts no constraint on the impacts (an empty minimum would
+                # otherwise be encoded as False and make every query entailed)
+                continue
             mv, mf = freshVars(index)
             vMin = minima_encoding(mv, vSums[index])
             fMin = minima_encoding(mf, fSums[index])
